@@ -252,6 +252,32 @@ def le(v, n):
     return int(v).to_bytes(n, "little")
 
 
+def split_top(s):
+    """top-level elements of a (VL [...]) term, as strings"""
+    s = s.strip()
+    if not s.startswith("(VL ["):
+        return []
+    body = s[5:-2]
+    out, depth, cur, instr = [], 0, [], False
+    for ch in body:
+        if ch == '"':
+            instr = not instr
+        if not instr:
+            if ch in "([":
+                depth += 1
+            elif ch in ")]":
+                depth -= 1
+            elif ch == ";" and depth == 0:
+                out.append("".join(cur).strip())
+                cur = []
+                continue
+        cur.append(ch)
+    t = "".join(cur).strip()
+    if t:
+        out.append(t)
+    return out
+
+
 # ------------------------------------------------------------------ running cases
 def run_lines(exe, lines, timeout=1200, shards=1):
     if not lines:
